@@ -8,6 +8,7 @@ package db
 import (
 	"errors"
 	"os"
+	"sync"
 
 	"golang.org/x/sys/unix"
 )
@@ -16,9 +17,32 @@ const (
 	seekSet = 0 // should be defined in syscall
 )
 
+// POSIX advisory locks belong to the process, not to the file descriptor:
+// unlocking a byte range, or closing ANY descriptor of a file, drops the locks
+// of every other handle this process has on that file. Handles on the same
+// file therefore share the bookkeeping of the SHARED lock, like SQLite's unix
+// VFS does: the range is only unlocked when the last reader is done, and a
+// descriptor is only closed when no reader is left.
+type inodeKey struct {
+	dev, ino uint64
+}
+
+type inodeLocks struct {
+	handles int        // open filePagers on this file
+	shared  int        // how many of them hold the SHARED lock
+	closing []*os.File // descriptors waiting for the last reader to finish
+}
+
+var (
+	inodeMu sync.Mutex
+	inodes  = map[inodeKey]*inodeLocks{}
+)
+
 type filePager struct {
 	f        *os.File
 	readLock *unix.Flock_t
+	key      inodeKey
+	closed   bool
 }
 
 func newFilePager(file string) (*filePager, error) {
@@ -26,8 +50,23 @@ func newFilePager(file string) (*filePager, error) {
 	if err != nil {
 		return nil, err
 	}
+	var st unix.Stat_t
+	if err := unix.Fstat(int(f.Fd()), &st); err != nil {
+		f.Close()
+		return nil, err
+	}
+	key := inodeKey{dev: uint64(st.Dev), ino: uint64(st.Ino)}
+	inodeMu.Lock()
+	in := inodes[key]
+	if in == nil {
+		in = &inodeLocks{}
+		inodes[key] = in
+	}
+	in.handles++
+	inodeMu.Unlock()
 	return &filePager{
-		f: f,
+		f:   f,
+		key: key,
 	}, nil
 }
 
@@ -35,6 +74,9 @@ func newFilePager(file string) (*filePager, error) {
 func (f *filePager) page(id int, pagesize int) ([]byte, error) {
 	// Read from the file itself: it can have grown (or shrunk) since it was
 	// opened, which a memory map made at open time does not follow.
+	if f.closed {
+		return nil, os.ErrClosed
+	}
 	buf := make([]byte, pagesize)
 	_, err := f.f.ReadAt(buf[:], int64(id-1)*int64(pagesize))
 	return buf, err
@@ -50,6 +92,11 @@ func (f *filePager) RLock() error {
 	if f.readLock != nil {
 		return errors.New("trying to lock a locked lock") // panic?
 	}
+	if f.closed {
+		return os.ErrClosed
+	}
+	inodeMu.Lock()
+	defer inodeMu.Unlock()
 
 	// - get PENDING lock
 	pending := &unix.Flock_t{
@@ -79,6 +126,7 @@ func (f *filePager) RLock() error {
 		return err
 	}
 	f.readLock = read
+	inodes[f.key].shared++
 	return nil
 }
 
@@ -86,10 +134,26 @@ func (f *filePager) RUnlock() error {
 	if f.readLock == nil {
 		return errors.New("trying to unlock an unlocked lock") // panic?
 	}
-	f.readLock.Type = unix.F_UNLCK
-	f.lock(f.readLock)
-	f.readLock = nil
+	inodeMu.Lock()
+	defer inodeMu.Unlock()
+	f.unlockLocked()
 	return nil
+}
+
+// give up our share of the SHARED lock. Needs inodeMu.
+func (f *filePager) unlockLocked() {
+	in := inodes[f.key]
+	in.shared--
+	if in.shared == 0 {
+		// we're the last reader of this process
+		f.readLock.Type = unix.F_UNLCK
+		f.lock(f.readLock)
+		for _, c := range in.closing {
+			c.Close()
+		}
+		in.closing = nil
+	}
+	f.readLock = nil
 }
 
 // True if there is a 'reserved' lock on the database, by any process.
@@ -106,5 +170,24 @@ func (f *filePager) CheckReservedLock() (bool, error) {
 }
 
 func (f *filePager) Close() error {
+	inodeMu.Lock()
+	defer inodeMu.Unlock()
+	if f.closed {
+		return os.ErrClosed
+	}
+	f.closed = true
+	in := inodes[f.key]
+	if f.readLock != nil {
+		f.unlockLocked()
+	}
+	in.handles--
+	if in.handles == 0 && in.shared == 0 {
+		delete(inodes, f.key)
+	}
+	if in.shared > 0 {
+		// closing the descriptor now would drop the lock of the readers
+		in.closing = append(in.closing, f.f)
+		return nil
+	}
 	return f.f.Close()
 }
